@@ -19,6 +19,7 @@
 #include <memory>
 #include <sstream>
 
+#include <sys/mman.h>
 #include <sys/wait.h>
 #include <unistd.h>
 
@@ -377,6 +378,14 @@ void case_tune(const std::vector<std::string> &t)
     emit("bad:unknown-search-class", "-", "noop");
 }
 
+void run_case(const std::vector<std::string> &t)
+{
+  if (t[0] == "ops") case_ops(t);
+  else if (t[0] == "ring") case_ring(t);
+  else if (t[0] == "tune") case_tune(t);
+  else emit("bad:unknown-case", "-", "noop");
+}
+
 }  // namespace
 
 int main(int argc, char *argv[])
@@ -388,36 +397,60 @@ int main(int argc, char *argv[])
     return 2;
   }
   std::ifstream in(argv[1]);
-  std::string line;
-  unsigned idx(0);
-  // One child process per case: every case starts from the same process state (vita hands out
-  // symbol opcodes from a static counter, and signatures – hence our i_mep fitness – depend on
-  // them), so a case replayed alone behaves exactly as inside a batch; a sanitizer abort only
-  // kills its own case.
-  while (std::getline(in, line))
+  std::vector<std::vector<std::string>> cases;
+  for (std::string line; std::getline(in, line);)
+    cases.push_back(verif::split(line));
+
+  // Child processes isolate the cases: a sanitizer abort only kills its own case, and a case replayed
+  // alone behaves exactly as inside a batch.  `ops` / `ring` cases get a process each (they build
+  // populations and draw from vita's PRNG).  A `tune` case is a pure function of its line (tune_parameters
+  // and is_valid read the environment, the number of terminals and the size of the data, nothing else):
+  // up to BATCH consecutive ones share a child – forking a sanitized process and its leak check at exit
+  // cost far more than the case itself.  The child reports its progress through a shared counter, so when
+  // it dies the parent knows inside which case, marks it `died` and goes on after it.
+  constexpr std::size_t BATCH = 48;
+  auto *progress(static_cast<volatile std::size_t *>(
+    mmap(nullptr, sizeof(std::size_t), PROT_READ | PROT_WRITE, MAP_SHARED | MAP_ANONYMOUS, -1, 0)));
+  if (static_cast<volatile void *>(progress) == MAP_FAILED) { std::cerr << "mmap failed\n"; return 2; }
+
+  std::size_t idx(0);
+  while (idx < cases.size())
   {
-    const auto t(verif::split(line));
-    if (t.empty()) { ++idx; continue; }
-    std::cout << "# case " << idx << " begin" << std::endl;
-    std::cerr << "## case " << idx << std::endl;
+    if (cases[idx].empty()) { ++idx; continue; }
+    std::size_t end(idx + 1);
+    if (cases[idx][0] == "tune")
+      while (end < cases.size() && end - idx < BATCH && !cases[end].empty() && cases[end][0] == "tune")
+        ++end;
+    *progress = idx;
+    std::cout.flush();
     const pid_t pid(fork());
     if (pid == 0)
     {
-      if (t[0] == "ops") case_ops(t);
-      else if (t[0] == "ring") case_ring(t);
-      else if (t[0] == "tune") case_tune(t);
-      else emit("bad:unknown-case", "-", "noop");
+      for (std::size_t i(idx); i < end; ++i)
+      {
+        *progress = i;
+        std::cout << "# case " << i << " begin" << std::endl;
+        std::cerr << "## case " << i << std::endl;
+        run_case(cases[i]);
+        std::cout << "# case " << i << " end" << std::endl;
+      }
+      *progress = end;
       std::cout.flush();
-      std::exit(0);
+      std::exit(0);       // (the leak check runs here: a leak is reported against the last case of the batch)
     }
     int status(0);
     waitpid(pid, &status, 0);
     if (WIFEXITED(status) && WEXITSTATUS(status) == 0)
-      std::cout << "# case " << idx << " end" << std::endl;
+      idx = end;
     else
-      std::cout << "\n# case " << idx << " died "
+    {
+      // died inside case *progress (or, at exit, after the last one: blame that one)
+      const std::size_t reached(*progress);
+      const std::size_t at(std::min(reached, end - 1));
+      std::cout << "\n# case " << at << " died "
                 << (WIFEXITED(status) ? WEXITSTATUS(status) : 128 + WTERMSIG(status)) << std::endl;
-    ++idx;
+      idx = at + 1;
+    }
   }
   return 0;
 }
